@@ -578,6 +578,18 @@ func f33TextAnchorsAdjacent(d *document.Document, parent *time.Ticket, revive []
 		sOK := last.physical+1 < len(all) && all[last.physical+1].key == k && !all[last.physical+1].dead &&
 			all[last.physical+1].off == b
 		switch {
+		case !rightExists && !leftExists:
+			// The whole insertion is revived (no other piece of it exists in
+			// any state): the ladder falls through to the operation's own
+			// normalised from-position, an offset over the live text, which -
+			// with a single writer and last-in-first-out undo - is the same
+			// place on every replica. Only when it is the operation's only
+			// span: the spans of one operation arrive in Go map order (known
+			// finding F44) and a fragment placed before this one would become
+			// its anchor instead.
+			if len(revive) != 1 {
+				return false
+			}
 		case rightExists && !sOK:
 			return false
 		case rightExists && len(rs) > 1 && leftExists && !lOK:
